@@ -51,7 +51,13 @@ def par_text(align, mos, defer, style):
         return ",".join(words)
     if style == "blanks":
         return "  " + "   ".join(words) + " \t"
+    if style in WHITESPACE_STYLES:              # every XML white space character separates
+        return WHITESPACE_STYLES[style].join(words)
     return text
+
+
+WHITESPACE_STYLES = {"tab": "\t", "newline": "\n", "crlf": "\r\n", "nl_indent": "\n    ",
+                     "comma_nl": ",\n"}
 
 
 def vb_text(vbox, style):
@@ -60,6 +66,8 @@ def vb_text(vbox, style):
         return ",".join(toks)
     if style == "mixed":
         return f" {toks[0]} , {toks[1]},{toks[2]}   {toks[3]} "
+    if style in WHITESPACE_STYLES:
+        return WHITESPACE_STYLES[style].join(toks)
     return " ".join(toks)
 
 
@@ -220,6 +228,30 @@ NEAR_SHAPES = [(1000, 1000.5), (1000, 999.5), (1000.5, 1000), (999.5, 1000), (10
 NEAR_DOCS = [(1000, 1000), (793.7008, 1122.5197), (1056, 816), (11, 8.5), (3, 3), (100, 100.01)]
 
 
+SEPARATOR_CASES = [((0, 0, 100, 50), (200, 200)), ((-3, 2, 10, 40), (30, 20)),
+                   ((1.5, -2.5, 4, 4), (8, 6)), ((0, 0, 7, 7), (7, 7))]
+
+
+def _separator_chunk(cases):
+    """Full product of separator / case spellings of both attributes (SVG: numbers and words
+    are separated by white space - space, tab, LF, CR - and/or a comma)."""
+    part = core.Part()
+    par_styles = ["canon", "lower", "upper", "comma", "blanks"] + sorted(WHITESPACE_STYLES)
+    vb_styles = ["space", "comma", "mixed"] + sorted(WHITESPACE_STYLES)
+    for vbox, doc in cases:
+        for align, mos, defer in itertools.product(ALIGNS, ("meet", "slice", None), (False, True)):
+            for style, vb_style in itertools.product(par_styles, vb_styles):
+                bad = check_valid(vbox, doc, align, mos, defer, style, vb_style)
+                part.count("valid_cases")
+                part.count("separator_cases")
+                for clause, msg in bad:
+                    part.violation(f"{clause}:sep:{align}:{mos}:{defer}:{style}:{vb_style}:{vbox}",
+                                   msg, {"kind": "valid", "vbox": list(vbox), "doc": list(doc),
+                                         "align": align, "mos": mos, "defer": defer,
+                                         "style": style, "vb_style": vb_style})
+    return part
+
+
 def _chunk(args):
     vboxes, docs = args
     part = core.Part()
@@ -276,6 +308,7 @@ def run(ctx):
     jobs += [(chunk, NEAR_DOCS) for chunk in core.split(near, 12)]
     part = core.fan_out(ctx, _chunk, jobs)
     part.merge(core.fan_out(ctx, _spelled_chunk, [[sp] for sp in SPELLED]))
+    part.merge(core.fan_out(ctx, _separator_chunk, [[case] for case in SEPARATOR_CASES]))
     for case in INVALID:
         for clause, msg in check_invalid(case):
             part.violation(f"{clause}:{case!r}", msg, {"kind": "invalid", "case": list(case)})
@@ -293,11 +326,14 @@ def run(ctx):
                 "over the product, plus absent/empty preserveAspectRatio and textual sizes; a family "
                 "of pages and viewBoxes whose aspect ratios differ by 1e-7..1e-3 relative or not "
                 "at all (24 viewBoxes x 6 pages); viewBox numbers in every SVG spelling (leading "
-                "'.', '+', trailing '.', exponents) against the canonical spelling; 21 "
-                "invalid inputs; non-trivial = uniform-scale cases whose aspect ratios differ "
+                "'.', '+', trailing '.', exponents) against the canonical spelling; the full "
+                "product of 10 x 8 separator/case spellings of the two attributes (space, comma, "
+                "tab, LF, CRLF, indented line breaks) for 4 geometries x all 60 settings; malformed "
+                "viewBoxes and the sign lattice of the four sizes; non-trivial = uniform-scale cases whose aspect ratios differ "
                 "(alignment and meet/slice change the answer)",
         "samples": core.rotate(part.samples, ctx.seed, 4),
         "invalid_cases": cnt.get("invalid_cases", 0),
+        "separator_cases": cnt.get("separator_cases", 0),
         "exhaustive": True,
     }
     assumptions = ["nan/inf/underscore numerals (Python float extensions), more than four "
